@@ -254,7 +254,19 @@ class InlinePass(ir.passes.InPlacePass):
         # Update the value map with the new values.
 
         nodes = [cloner.clone_node(node) for node in function]
-        output_values = [value_map[output] for output in function.outputs]
+        output_values = []
+        for output in function.outputs:
+            output_value = value_map[output]
+            if output_value is not None and output.is_graph_input():
+                # The function returns one of its inputs directly. Materialize the
+                # alias so that the call-site input is not renamed and a subgraph
+                # does not end up returning an outer-scope value.
+                identity = ir.node("Identity", inputs=[output_value])
+                identity.outputs[0].name = output.name
+                rename(identity)
+                nodes.append(identity)
+                output_value = identity.outputs[0]
+            output_values.append(output_value)
         return nodes, output_values  # type: ignore[return-value]
 
     def _inline_calls_in(
